@@ -3,7 +3,8 @@
      command / application / hop-by-hop / end-to-end ids), never an answer; every other event queues
      requests only;
    - C08: an application request reaches exactly the application chosen by the declarative routing
-     function `spec_route`, or is rejected with the result code `spec_route` gives;
+     function `spec_route` (and is then answered 5012 when that application's handler raises), or is
+     rejected with the result code `spec_route` gives;
    - C17: the T flag causes a rejection exactly for end-to-end ids in the origin's bounded window of
      answered requests.
    "The node transmits / answers" = `OQueue cid m` (Node.send_message). *)
@@ -156,7 +157,10 @@ Proof. intros H. unfold rm_dup. rewrite H. destruct (m_origin m); reflexivity. Q
 Inductive rm_out (cid : nat) (m : msg) : list output -> Prop :=
 | RO_answer pre code f : m_req m = true -> nq pre -> nd pre ->
     rm_out cid m (pre ++ [OQueue cid (answer_of m (Some code) f)])
-| RO_deliver i k : m_req m = true -> m_cmd m = App k -> rm_out cid m [ODeliver i m]
+| RO_deliver i k : m_req m = true -> m_cmd m = App k -> handler_raises m = false ->
+    rm_out cid m [ODeliver i m]
+| RO_deliver_fail i k : m_req m = true -> m_cmd m = App k -> handler_raises m = true ->
+    rm_out cid m [ODeliver i m; OQueue cid (answer_of m (Some RC_UNABLE) [])]
 | RO_other outs : nq outs -> nd outs -> rm_out cid m outs.
 
 Lemma rm_out_send n cid m code f :
@@ -170,6 +174,8 @@ Proof. apply RO_other; [apply close_conn_nq|apply close_conn_nd]. Qed.
 Lemma recv_cer_shape n cid m : m_req m = true -> rm_out cid m (snd (recv_cer n cid m)).
 Proof.
   intros Hreq. unfold recv_cer.
+  destruct (get_conn n cid) as [c0|]; [|apply rm_out_nil].
+  destruct (negb (cstate_eqb (c_state c0) SConnected)); [apply rm_out_nil|].
   destruct (pres_get (m_origin m)) as [host|]; [|apply rm_out_nil].
   destruct (get_peer n host) as [p|]; [|apply rm_out_send; exact Hreq].
   cbv zeta.
@@ -212,7 +218,9 @@ Proof.
   destruct (m_drealm m) as [| |realm]; try (apply rm_out_send; exact Hreq).
   destruct (route_lookup n realm) as [entries|]; [|apply rm_out_send; exact Hreq].
   destruct (List.find _ entries) as [[[i|] names]|]; try (apply rm_out_send; exact Hreq).
-  cbn [snd]. eapply RO_deliver; eassumption.
+  destruct (handler_raises m) eqn:Hh.
+  - rewrite send_message_pair. cbn [snd]. eapply RO_deliver_fail; eassumption.
+  - cbn [snd]. eapply RO_deliver; eassumption.
 Qed.
 
 Lemma recv_app_answer_shape n cid m : rm_out cid m (snd (recv_app_answer n m)).
@@ -265,7 +273,8 @@ Theorem C07_dispatch_answers n cid m n' outs :
   /\ (List.length (List.filter is_queue outs) <= 1)%nat.
 Proof.
   intros Hd. pose proof (dispatch_shape n cid m) as Hs. rewrite Hd in Hs. cbn [snd] in Hs.
-  inversion Hs as [pre code f Hreq Hpq Hpd Ho | i k Hreq Hcmd Ho | outs' Hnq Hnd Ho]; subst.
+  inversion Hs as [pre code f Hreq Hpq Hpd Ho | i k Hreq Hcmd Hh Ho | i k Hreq Hcmd Hh Ho
+                  | outs' Hnq Hnd Ho]; subst.
   - split.
     + intros cid' a Hin. apply List.in_app_or in Hin. destruct Hin as [Hin|[Hin|[]]].
       * exfalso. exact (nq_not_in _ Hpq _ _ Hin).
@@ -273,6 +282,9 @@ Proof.
     + rewrite List.filter_app, (nq_filter _ Hpq). cbn. lia.
   - split; [|cbn; lia].
     intros cid' a [Hin|[]]. discriminate Hin.
+  - split; [|cbn; lia].
+    intros cid' a [Hin|[Hin|[]]]; [discriminate Hin|].
+    inversion Hin; subst. cbn. repeat split; try reflexivity. exact Hreq.
   - split.
     + intros cid' a Hin. exfalso. exact (nq_not_in _ Hnq _ _ Hin).
     + rewrite nq_filter by exact Hnq. cbn. lia.
@@ -298,18 +310,44 @@ Proof.
   destruct (H _ _ Hin) as (_ & Hr & _). exact Hr.
 Qed.
 
-(* C07: a request handed to an application is not also answered by the node *)
+(* C07: a request handed to an application whose handler does not raise is not also answered by the node *)
 Theorem C07_delivered_not_answered n cid m i m' :
+  handler_raises m = false ->
   List.In (ODeliver i m') (snd (dispatch n cid m)) ->
   forall cid' a, ~ List.In (OQueue cid' a) (snd (dispatch n cid m)).
 Proof.
-  intros Hdel cid' a Hin.
+  intros Hnr Hdel cid' a Hin.
   pose proof (dispatch_shape n cid m) as Hs.
-  inversion Hs as [pre code f Hreq Hpq Hpd Ho | j k Hreq Hcmd Ho | outs' Hnq Hnd Ho].
+  inversion Hs as [pre code f Hreq Hpq Hpd Ho | j k Hreq Hcmd Hh Ho | j k Hreq Hcmd Hh Ho
+                  | outs' Hnq Hnd Ho].
   - rewrite <- Ho in Hdel. apply List.in_app_or in Hdel. destruct Hdel as [Hd|[Hd|[]]]; [|discriminate Hd].
     exact (nd_not_in _ Hpd _ _ Hd).
   - rewrite <- Ho in Hin. destruct Hin as [Hd|[]]. discriminate Hd.
+  - congruence.
   - exact (nq_not_in _ Hnq _ _ Hin).
+Qed.
+
+(* C07: when the node both hands a request to an application and answers it, the application's handler
+   raised and the answer is UNABLE_TO_COMPLY (5012) to that request, on its connection, after the delivery *)
+Theorem C07_delivered_answered_only_on_failure n cid m i m' cid' a :
+  List.In (ODeliver i m') (snd (dispatch n cid m)) ->
+  List.In (OQueue cid' a) (snd (dispatch n cid m)) ->
+  handler_raises m = true /\ m' = m /\ cid' = cid /\ a = answer_of m (Some RC_UNABLE) []
+  /\ snd (dispatch n cid m) = [ODeliver i m; OQueue cid (answer_of m (Some RC_UNABLE) [])].
+Proof.
+  intros Hdel Hin.
+  pose proof (dispatch_shape n cid m) as Hs.
+  inversion Hs as [pre code f Hreq Hpq Hpd Ho | j k Hreq Hcmd Hh Ho | j k Hreq Hcmd Hh Ho
+                  | outs' Hnq Hnd Ho].
+  - exfalso. rewrite <- Ho in Hdel. apply List.in_app_or in Hdel.
+    destruct Hdel as [Hd|[Hd|[]]]; [|discriminate Hd].
+    exact (nd_not_in _ Hpd _ _ Hd).
+  - exfalso. rewrite <- Ho in Hin. destruct Hin as [Hd|[]]. discriminate Hd.
+  - rewrite <- Ho in Hdel, Hin.
+    destruct Hdel as [Hd|[Hd|[]]]; [|discriminate Hd].
+    destruct Hin as [Hq|[Hq|[]]]; [discriminate Hq|].
+    inversion Hd; subst. inversion Hq; subst. repeat split; try reflexivity. exact Hh.
+  - exfalso. exact (nq_not_in _ Hnq _ _ Hin).
 Qed.
 
 (* ---- dispatch_all ------------------------------------------------------ *)
@@ -656,9 +694,14 @@ Definition spec_route (n : node) (c : conn) (m : msg) : routing :=
         end
   end.
 
+(* what the node does with the routing decision: a rejection is one answer; a delivery is one delivery,
+   followed, when the application's handler raises on the request (`handler_raises m`, the environment's
+   choice), by the catch-all's UNABLE_TO_COMPLY (5012) answer *)
+Definition deliver_outputs (cid : nat) (m : msg) (i : nat) : list output :=
+  if handler_raises m then [ODeliver i m; OQueue cid (answer_of m (Some 5012) [])] else [ODeliver i m].
 Definition route_outputs (cid : nat) (m : msg) (r : routing) : list output :=
   match r with
-  | Deliver i => [ODeliver i m]
+  | Deliver i => deliver_outputs cid m i
   | Reject code failed => [OQueue cid (answer_of m (Some code) failed)]
   end.
 
@@ -705,7 +748,7 @@ Lemma recv_app_request_spec n cid c m :
       | None => [OQueue cid (answer_of m (Some 3003) [])]
       | Some entries =>
           match first_app (n_apps n) (find_conn_peer n c) (m_app m) entries with
-          | Some i => [ODeliver i m]
+          | Some i => deliver_outputs cid m i
           | None => [OQueue cid (answer_of m (Some 3007) [])]
           end
       end
@@ -716,9 +759,11 @@ Proof.
   rewrite route_lookup_entries.
   destruct (realm_entries (n_routes n) realm) as [entries|]; [|apply send_message_out].
   rewrite <- (pick_first_app (n_apps n) (find_conn_peer n c) (m_app m)
-                (fun i => [ODeliver i m]) [OQueue cid (answer_of m (Some 3007) [])] entries).
+                (fun i => deliver_outputs cid m i) [OQueue cid (answer_of m (Some 3007) [])] entries).
   change (List.find _ entries) with (List.find (pick_pred (n_apps n) (find_conn_peer n c) (m_app m)) entries).
-  destruct (List.find _ entries) as [[[i|] names]|]; first [reflexivity|apply send_message_out].
+  destruct (List.find _ entries) as [[[i|] names]|]; try apply send_message_out.
+  unfold deliver_outputs. destruct (handler_raises m); [|reflexivity].
+  rewrite send_message_pair. reflexivity.
 Qed.
 
 Lemma rm_dup_spec n m : m_req m = true -> rm_dup (rm_n0 n m) m = m_t m && already_answered n m.
@@ -728,7 +773,8 @@ Proof.
 Qed.
 
 (* C08: an application request on an existing connection produces exactly what the routing
-   function says: one delivery to the chosen application, or one answer with the specified result code *)
+   function says: one delivery to the chosen application (followed by the 5012 answer when the
+   application's handler raises), or one answer with the specified result code *)
 Theorem C08_route_refines n cid c m k :
   get_conn n cid = Some c -> m_req m = true -> m_cmd m = App k ->
   snd (receive_message n cid m) = route_outputs cid m (spec_route n c m).
@@ -775,15 +821,20 @@ Proof.
   - right. exact (IH H).
 Qed.
 
-(* C08: when the routing function delivers to application i, the delivery is the whole output: no
-   other application gets the request and the node queues nothing; and i is an application with the
-   request's application id, routed in the request's realm (through the sending peer if it is configured) *)
+(* C08: when the routing function delivers to application i, the request is handed to i exactly once and
+   to no other application; the node queues nothing, unless the application's handler raises: then
+   exactly the 5012 answer to the request, on its connection, after the delivery; and i is an
+   application with the request's application id, routed in the request's realm (through the sending peer
+   if it is configured) *)
 Theorem C08_exactly_once n cid c m k i :
   get_conn n cid = Some c -> m_req m = true -> m_cmd m = App k ->
   spec_route n c m = Deliver i ->
-  snd (receive_message n cid m) = [ODeliver i m]
+  snd (receive_message n cid m) = deliver_outputs cid m i
+  /\ List.filter is_deliver (snd (receive_message n cid m)) = [ODeliver i m]
   /\ (forall j m', List.In (ODeliver j m') (snd (receive_message n cid m)) -> j = i /\ m' = m)
-  /\ (forall cid' a, ~ List.In (OQueue cid' a) (snd (receive_message n cid m)))
+  /\ (forall cid' a, List.In (OQueue cid' a) (snd (receive_message n cid m)) ->
+        handler_raises m = true /\ cid' = cid /\ a = answer_of m (Some 5012) [])
+  /\ (handler_raises m = false -> snd (receive_message n cid m) = [ODeliver i m])
   /\ exists realm entries names a,
        m_drealm m = Present realm /\ List.In (realm, entries) (n_routes n) /\
        List.In (RApp i, names) entries /\ List.nth_error (n_apps n) i = Some a /\ a_id a = m_app m /\
@@ -791,9 +842,15 @@ Theorem C08_exactly_once n cid c m k i :
 Proof.
   intros Hc Hreq Hcmd Hs.
   pose proof (C08_route_refines n cid c m k Hc Hreq Hcmd) as Hr. rewrite Hs in Hr. cbn [route_outputs] in Hr.
-  rewrite Hr. split; [reflexivity|]. split; [|split].
-  - intros j m' [Hin|[]]. inversion Hin; subst. split; reflexivity.
-  - intros cid' a [Hin|[]]. discriminate Hin.
+  rewrite Hr. split; [reflexivity|]. unfold deliver_outputs.
+  split; [destruct (handler_raises m); reflexivity|]. split; [|split; [|split]].
+  - destruct (handler_raises m).
+    + intros j m' [Hin|[Hin|[]]]; [|discriminate Hin]. inversion Hin; subst. split; reflexivity.
+    + intros j m' [Hin|[]]. inversion Hin; subst. split; reflexivity.
+  - destruct (handler_raises m).
+    + intros cid' a [Hin|[Hin|[]]]; [discriminate Hin|]. inversion Hin; subst. repeat split.
+    + intros cid' a [Hin|[]]. discriminate Hin.
+  - intros Hnr. rewrite Hnr. reflexivity.
   - unfold spec_route in Hs.
     destruct (if g_validate (n_cfg n) then m_missing m else []); [|discriminate Hs].
     destruct (m_t m && already_answered n m); [discriminate Hs|].
@@ -806,6 +863,19 @@ Proof.
     apply realm_entries_in. exact He.
 Qed.
 
+(* C08: when the routing function delivers to application i and the application's handler raises, the
+   node hands the request to i and then answers it UNABLE_TO_COMPLY (5012) on its connection: exactly
+   these two outputs, in this order *)
+Theorem C08_handler_failure_answered n cid c m k i :
+  get_conn n cid = Some c -> m_req m = true -> m_cmd m = App k ->
+  spec_route n c m = Deliver i -> handler_raises m = true ->
+  snd (receive_message n cid m) = [ODeliver i m; OQueue cid (answer_of m (Some RC_UNABLE) [])].
+Proof.
+  intros Hc Hreq Hcmd Hs Hh.
+  rewrite (C08_route_refines n cid c m k Hc Hreq Hcmd), Hs. cbn [route_outputs].
+  unfold deliver_outputs. rewrite Hh. reflexivity.
+Qed.
+
 (* C08: base protocol messages (capabilities exchange, watchdog, disconnect) never reach an application *)
 Theorem C08_base_never_delivered n cid m :
   m_cmd m = CE \/ m_cmd m = DW \/ m_cmd m = DP ->
@@ -813,9 +883,10 @@ Theorem C08_base_never_delivered n cid m :
 Proof.
   intros Hcmd i m' Hin.
   pose proof (dispatch_shape n cid m) as Hs.
-  inversion Hs as [pre code f Hreq Hpq Hpd Ho | j k Hreq Hk Ho | outs' Hnq Hnd Ho].
+  inversion Hs as [pre code f Hreq Hpq Hpd Ho | j k Hreq Hk Hh Ho | j k Hreq Hk Hh Ho | outs' Hnq Hnd Ho].
   - rewrite <- Ho in Hin. apply List.in_app_or in Hin. destruct Hin as [Hd|[Hd|[]]]; [|discriminate Hd].
     exact (nd_not_in _ Hpd _ _ Hd).
+  - destruct Hcmd as [H|[H|H]]; congruence.
   - destruct Hcmd as [H|[H|H]]; congruence.
   - exact (nd_not_in _ Hnd _ _ Hin).
 Qed.
@@ -827,6 +898,18 @@ Theorem C08_gate_then_route n cid c m :
 Proof.
   intros Hc Hr. unfold dispatch. rewrite Hc. unfold gate_passes.
   destruct (c_state c); try discriminate Hr; reflexivity.
+Qed.
+
+(* C08: the same through the gate: on a ready connection, a request routed to application i whose
+   handler raises makes dispatch output exactly the delivery followed by the 5012 answer *)
+Theorem C08_handler_failure_answered_dispatch n cid c m k i :
+  get_conn n cid = Some c -> is_ready_state (c_state c) = true ->
+  m_req m = true -> m_cmd m = App k ->
+  spec_route n c m = Deliver i -> handler_raises m = true ->
+  snd (dispatch n cid m) = [ODeliver i m; OQueue cid (answer_of m (Some RC_UNABLE) [])].
+Proof.
+  intros Hc Hr Hreq Hcmd Hs Hh. rewrite (C08_gate_then_route n cid c m Hc Hr).
+  exact (C08_handler_failure_answered n cid c m k i Hc Hreq Hcmd Hs Hh).
 Qed.
 
 (* ====================================================================== *)
@@ -968,6 +1051,8 @@ Lemma recv_cer_clear_ok n cid m : clear_ok (recv_cer n cid m) (recv_cer n cid (c
 Proof.
   change (recv_cer n cid (clear_t m)) with (recv_cer n cid m).
   unfold recv_cer.
+  destruct (get_conn n cid) as [c0|]; [|apply clear_ok_nil].
+  destruct (negb (cstate_eqb (c_state c0) SConnected)); [apply clear_ok_nil|].
   destruct (pres_get (m_origin m)) as [host|]; [|apply clear_ok_nil].
   destruct (get_peer n host) as [p|]; [|apply clear_ok_send].
   cbv zeta.
@@ -995,7 +1080,10 @@ Proof.
   destruct (m_drealm m) as [| |realm]; try apply clear_ok_send.
   destruct (route_lookup n realm) as [entries|]; [|apply clear_ok_send].
   destruct (List.find _ entries) as [[[i|] names]|]; try apply clear_ok_send.
-  reflexivity.
+  change (handler_raises (clear_t m)) with (handler_raises m).
+  destruct (handler_raises m); [|reflexivity].
+  change (answer_of (clear_t m) (Some RC_UNABLE) []) with (answer_of m (Some RC_UNABLE) []).
+  rewrite send_message_pair. reflexivity.
 Qed.
 
 Lemma rm_handle_clear_ok n0 cid m :
@@ -1188,13 +1276,20 @@ Definition ex_node : node :=
      n_routes := [("r"%string, [(RApp 0, ["p"%string])])]; n_apps := [ex_app];
      n_app_waiting := []; n_peer_waiting := []; n_origin_waiting := [];
      n_sent_answers := [("p"%string, [8; 9])]; n_e2e := 500 |}.
-(* an application request (command 272, application 4, realm "r") from "p" *)
+(* an application request (command 272, application 4, realm "r") from "p"; the application's handler
+   does not raise on it (tag 4) *)
 Definition ex_req (appid e2e : Z) (t : bool) (realm : pres string) (missing : list (Z * Z)) : msg :=
   {| m_cmd := App 272; m_req := true; m_p := true; m_e := false; m_t := t;
      m_app := appid; m_hbh := 7; m_e2e := e2e; m_origin := Present "p"%string; m_drealm := realm;
      m_result := Undeclared; m_missing := missing; m_has_failed_avp_slot := true;
-     m_auth := []; m_acct := []; m_tag := 1 |}.
+     m_auth := []; m_acct := []; m_tag := 4 |}.
 Definition ex_good : msg := ex_req 4 11 false (Present "r"%string) [].
+(* the same request, on which the application's handler raises (tag TAG_HANDLER_RAISES) *)
+Definition ex_raises : msg :=
+  {| m_cmd := App 272; m_req := true; m_p := true; m_e := false; m_t := false;
+     m_app := 4; m_hbh := 7; m_e2e := 11; m_origin := Present "p"%string; m_drealm := Present "r"%string;
+     m_result := Undeclared; m_missing := []; m_has_failed_avp_slot := true;
+     m_auth := []; m_acct := []; m_tag := TAG_HANDLER_RAISES |}.
 Definition ex_dwr : msg :=
   {| m_cmd := DW; m_req := true; m_p := false; m_e := false; m_t := false;
      m_app := 0; m_hbh := 21; m_e2e := 22; m_origin := Present "p"%string; m_drealm := Undeclared;
@@ -1207,13 +1302,15 @@ Definition ex_dwa : msg :=
      m_auth := []; m_acct := []; m_tag := 3 |}.
 
 (* C07: a watchdog request is answered once, on its connection, with its identifiers; a request for an
-   unknown application is answered 3007; a delivered request and a received answer queue nothing;
+   unknown application is answered 3007; a delivered request and a received answer queue nothing; a
+   delivered request whose handler raises is answered 5012 once;
    a batch of [request; answer; unknown-application request] queues exactly two answers *)
 Example C07_example :
   snd (dispatch ex_node 0 ex_dwr) = [OQueue 0%nat (answer_of ex_dwr (Some 2001) [])]
   /\ snd (dispatch ex_node 0 (ex_req 5 11 false (Present "r"%string) []))
      = [OQueue 0%nat (answer_of (ex_req 5 11 false (Present "r"%string) []) (Some 3007) [])]
   /\ snd (dispatch ex_node 0 ex_good) = [ODeliver 0%nat ex_good]
+  /\ snd (dispatch ex_node 0 ex_raises) = [ODeliver 0%nat ex_raises; OQueue 0%nat (answer_of ex_raises (Some 5012) [])]
   /\ snd (dispatch ex_node 0 ex_dwa) = []
   /\ List.length (List.filter is_queue
        (snd (dispatch_all ex_node 0 [ex_dwr; ex_dwa; ex_req 5 11 false (Present "r"%string) []]))) = 2%nat
@@ -1227,6 +1324,12 @@ Example C08_example :
   get_conn ex_node 0 = Some ex_conn
   /\ spec_route ex_node ex_conn ex_good = Deliver 0
   /\ snd (receive_message ex_node 0 ex_good) = [ODeliver 0%nat ex_good]
+  /\ handler_raises ex_good = false /\ handler_raises ex_raises = true
+  /\ spec_route ex_node ex_conn ex_raises = Deliver 0
+  /\ route_outputs 0 ex_raises (Deliver 0)
+     = [ODeliver 0%nat ex_raises; OQueue 0%nat (answer_of ex_raises (Some 5012) [])]
+  /\ snd (receive_message ex_node 0 ex_raises)
+     = [ODeliver 0%nat ex_raises; OQueue 0%nat (answer_of ex_raises (Some 5012) [])]
   /\ spec_route ex_node ex_conn (ex_req 5 11 false (Present "r"%string) []) = Reject 3007 []
   /\ spec_route ex_node ex_conn (ex_req 4 11 false (Present "x"%string) []) = Reject 3003 []
   /\ spec_route ex_node ex_conn (ex_req 4 11 false Absent []) = Reject 5012 []
@@ -1272,10 +1375,13 @@ Print Assumptions C07_dispatch_answers.
 Print Assumptions C07_no_answer_to_answer.
 Print Assumptions C07_no_request_from_dispatch.
 Print Assumptions C07_delivered_not_answered.
+Print Assumptions C07_delivered_answered_only_on_failure.
 Print Assumptions C07_answers_only_from.
 Print Assumptions C07_dispatch_all_answers.
 Print Assumptions C08_route_refines.
 Print Assumptions C08_exactly_once.
+Print Assumptions C08_handler_failure_answered.
+Print Assumptions C08_handler_failure_answered_dispatch.
 Print Assumptions C08_base_never_delivered.
 Print Assumptions C08_gate_then_route.
 Print Assumptions bounded_append_spec.
